@@ -1207,7 +1207,20 @@ pub fn from_tokens(tokens: serde_assert::Tokens, human: bool) -> Result<W, Strin
 pub fn rt_tok(w: &W, human: bool) -> Result<W, String> {
     let tokens = to_tokens(w, human)?;
     let shown = format!("{:?}", tokens);
-    from_tokens(tokens, human).map_err(|e| format!("deserialize of own output failed: {e}; tokens={shown}"))
+    let back = from_tokens(tokens, human).map_err(|e| format!("deserialize of own output failed: {e}; tokens={shown}"))?;
+    // the same round trip with every struct written as a sequence (the `visit_seq` branch of the struct visitors,
+    // which formats such as bincode or postcard take): it must succeed and give an equal world
+    let seq_tokens = {
+        use serde::Serialize;
+        let ser = serde_assert::Serializer::builder().is_human_readable(human).serialize_struct_as(serde_assert::ser::SerializeStructAs::Seq).build();
+        w.serialize(&ser).map_err(|e| format!("serialize (structs as sequences) failed: {e:?}"))?
+    };
+    let shown = format!("{:?}", seq_tokens);
+    let back_seq = from_tokens(seq_tokens, human).map_err(|e| format!("deserialize of own output (structs as sequences) failed: {e}; tokens={shown}"))?;
+    if !(back_seq == back) || !(back == back_seq) {
+        return Err(format!("structs-as-sequences round trip differs from the struct round trip; tokens={shown}"));
+    }
+    Ok(back)
 }
 
 // ---------------------------------------------------------------------------------------------
